@@ -248,6 +248,74 @@ fn check_seq(bytes: &[u8], reference: &std::collections::HashMap<Call, String>, 
     }
 }
 
+fn corpus_walks(tally: &mut Tally) -> usize {
+    use crate::walker::{open_and_walk, Config, Obs, WalkOpts};
+    let dir = format!("{}/files", repo_dir());
+    let mut files: Vec<(String, Vec<u8>, Vec<u8>)> = vec![];
+    for (sub, pw) in [("", &b""[..]), ("password_protected", &b"userpassword"[..])] {
+        let d = if sub.is_empty() { dir.clone() } else { format!("{}/{}", dir, sub) };
+        let mut names: Vec<String> = std::fs::read_dir(&d).map(|d| d.filter_map(|e| e.ok()).map(|e| e.file_name().to_string_lossy().to_string()).collect()).unwrap_or_default();
+        names.sort();
+        for n in names.into_iter().filter(|n| n.ends_with(".pdf")) {
+            if let Ok(b) = std::fs::read(format!("{}/{}", d, n)) {
+                if b.len() <= 200_000 {
+                    files.push((if sub.is_empty() { n } else { format!("{}/{}", sub, n) }, b, pw.to_vec()));
+                }
+            }
+        }
+    }
+    let n = files.len();
+    let parts: Vec<Tally> = files
+        .par_iter()
+        .map(|(name, bytes, pw)| {
+            let mut t = Tally::new();
+            for tolerant in [false, true] {
+                let walk = |cached: bool| -> std::result::Result<Vec<(String, String)>, String> {
+                    let mut o = Obs::new(true);
+                    let cfg = Config { tolerant, cached };
+                    match catch(|| open_and_walk(bytes, pw, cfg, &WalkOpts { scan: false, font_codes: false, max_objects: 400 }, &mut o)) {
+                        Err((loc, msg)) => Err(format!("{} ({})", panic_kind(&loc), truncate(&msg, 100))),
+                        Ok(Err(v)) => Err(format!("load-error:{}", v)),
+                        Ok(Ok(())) => Ok(o.lines),
+                    }
+                };
+                t.evaluations += 1;
+                t.distinct.insert(fnv_mix(fnv(name.as_bytes()), tolerant as u64));
+                let (a, b) = (walk(false), walk(true));
+                let verdict: std::result::Result<(), (String, String)> = match (a, b) {
+                    (Ok(x), Ok(y)) => {
+                        let mut d = None;
+                        for i in 0..x.len().max(y.len()) {
+                            if x.get(i) != y.get(i) {
+                                d = Some(format!("uncached: {:?} | cached: {:?}", x.get(i).map(|(k, v)| format!("{} = {}", k, truncate(v, 120))), y.get(i).map(|(k, v)| format!("{} = {}", k, truncate(v, 120)))));
+                                break;
+                            }
+                        }
+                        match d {
+                            None => Ok(()),
+                            Some(d) => Err(("corpus-walk-differs".into(), d)),
+                        }
+                    }
+                    (Err(x), Err(y)) if x == y => Ok(()),
+                    (x, y) => Err(("corpus-open-differs".into(), format!("uncached: {:?} cached: {:?}", x.map(|l| l.len()), y.map(|l| l.len())))),
+                };
+                match verdict {
+                    Ok(()) => t.outcome("same"),
+                    Err((kind, detail)) => {
+                        t.outcome(&kind);
+                        t.fail("c12.corpus", &kind, vec![format!("file={}", name), format!("mode={}", if tolerant { "tolerant" } else { "strict" })], detail, json!({"engine": "c12.corpus", "file": name}));
+                    }
+                }
+            }
+            t
+        })
+        .collect();
+    for p in parts {
+        tally.merge(p);
+    }
+    n
+}
+
 pub fn run(tier: Tier, _seed: u64, tally: &mut Tally) -> CheckMeta {
     let maxlen = 3;
     let mut total_alpha = 0;
@@ -355,6 +423,9 @@ pub fn run(tier: Tier, _seed: u64, tally: &mut Tally) -> CheckMeta {
             tally.merge(p);
         }
     }
+    // corpus: the complete walk of every repository file (pages, resources, fonts, images, operators, trees, every object by number)
+    // must give the same observations with and without caches, in strict and in tolerant mode, walked twice on one open document
+    let n_corpus = corpus_walks(tally);
     tally.states = tally.evaluations;
     tally.transitions = tally.evaluations;
     tally.validated = tally.evaluations;
@@ -363,7 +434,7 @@ pub fn run(tier: Tier, _seed: u64, tally: &mut Tally) -> CheckMeta {
     CheckMeta {
         prop: "C12",
         level: "model_checking",
-        rule: format!("call alphabet of {} (kind, object) pairs on two generated documents (classic; xref stream + object stream) containing pages, fonts, a Flate image with predictor, a hex+run-length mask, an [ASCII85 Flate] image, a form and content streams: kinds resolve, get::<PagesNode|Font|XObject|Stream|ObjectStream>, Stream::data, raw_image_data, image_data, get_page (incl. type-mismatching and out-of-range calls). Exhaustive: all sequences of length <= 2 under 5 cache configurations {{SyncCache both, object only, stream only, own map-backed caches, none}}, all sequences of length 3 under {}, every ordering (all permutations) of the distinct calls per object, and all ordered pairs over a wide alphabet of {} calls (resolve and get::<PagesNode|Font|XObject|Stream> on every object of the document, page look-ups) under all 5 configurations. Each answer is compared with the same call made alone on a fresh uncached document (canonical digest / root-cause error variant).", total_alpha, if tier.thorough() { "every configuration" } else { "both-caches and own-map-caches" }, total_wide),
+        rule: format!("call alphabet of {} (kind, object) pairs on two generated documents (classic; xref stream + object stream) containing pages, fonts, a Flate image with predictor, a hex+run-length mask, an [ASCII85 Flate] image, a form and content streams: kinds resolve, get::<PagesNode|Font|XObject|Stream|ObjectStream>, Stream::data, raw_image_data, image_data, get_page (incl. type-mismatching and out-of-range calls). Exhaustive: all sequences of length <= 2 under 5 cache configurations {{SyncCache both, object only, stream only, own map-backed caches, none}}, all sequences of length 3 under {}, every ordering (all permutations) of the distinct calls per object, and all ordered pairs over a wide alphabet of {} calls (resolve and get::<PagesNode|Font|XObject|Stream> on every object of the document, page look-ups) under all 5 configurations; plus the complete walk of {} repository files cached vs uncached (strict and tolerant). Each answer is compared with the same call made alone on a fresh uncached document (canonical digest / root-cause error variant).", total_alpha, if tier.thorough() { "every configuration" } else { "both-caches and own-map-caches" }, total_wide, n_corpus),
         assumptions: vec!["digests are independent of HashMap iteration order and file offsets".into()],
         exhaustive: true,
         bounds: json!({"sequence_len": maxlen}),
@@ -371,6 +442,16 @@ pub fn run(tier: Tier, _seed: u64, tally: &mut Tally) -> CheckMeta {
 }
 
 pub fn replay(case: &Value, tally: &mut Tally) {
+    if case["engine"].as_str() == Some("c12.corpus") {
+        let mut t = Tally::new();
+        corpus_walks(&mut t);
+        for f in t.all_failures() {
+            if f.replay["file"] == case["file"] {
+                tally.add_failure(f.clone());
+            }
+        }
+        return;
+    }
     let variant = case["variant"].as_u64().unwrap_or(0) as usize;
     let cfg = case["config"].as_u64().unwrap_or(0) as usize;
     let bytes = c12_doc(variant);
